@@ -1269,6 +1269,8 @@ func runC13(r *Run, rng *Rng, replay string) {
 		c13agilen(r, N, i%5)
 	}
 	mark("agile")
+	c13sinfoCases(r, rng, thorough)
+	mark("sinfo")
 	for _, p := range pws {
 		c13u16(r, p)
 	}
@@ -1345,6 +1347,11 @@ func c13replay(r *Run, rng *Rng, path string) {
 			if len(w) == 3 {
 				v := ints(w[1:])
 				c13agilen(r, v[0], v[1])
+			}
+		case "sinfo":
+			if len(w) == 3 {
+				n, _ := strconv.Atoi(w[2])
+				c13sinfo(r, []byte(unhx(w[1])), n)
 			}
 		case "u16":
 			if len(w) == 2 {
